@@ -79,11 +79,11 @@ func init() {
 	})
 	register(&PropConfig{
 		ID:         "C12",
-		Probes:     []string{"templ.renderCSSItemsToBuilder#ensures.C12-1.probe", "templ.RenderScriptItems#probe", "templ.CSSMiddleware.ServeHTTP#probe"},
+		Probes:     []string{"templ.renderCSSItemsToBuilder#ensures.C12-1.probe", "templ.RenderScriptItems#probe", "templ.CSSMiddleware.ServeHTTP#probe", "x_script_hoisting.ifThenAgain#probe"},
 		Replay:     replayC12,
 		Packages:   []string{"."},
 		Corpus:     true,
-		CorpusOnly: []string{"test_script_usage", "test_script_usage_nonce", "test_script_inline", "test_js_usage", "test_js_unsafe_usage", "test_css_usage", "test_css_middleware", "test_css_expression", "test_once", "test_complex_attributes", "test_only_scripts", "test_call"},
+		CorpusOnly: []string{"test_script_usage", "test_script_usage_nonce", "test_script_inline", "test_js_usage", "test_js_unsafe_usage", "test_css_usage", "test_css_middleware", "test_css_expression", "test_once", "test_complex_attributes", "test_only_scripts", "test_call", "x_script_hoisting"},
 		Extra:      func(r *Run) { r.VerifyGenerated(r.corpus, "C12") },
 		Assume: []string{
 			"one render = one shared context value holding the registry (getContext / InitializeContext trusted with that model)",
